@@ -5,6 +5,7 @@ import (
 	"encoding/json"
 	"fmt"
 	"strings"
+	"sync/atomic"
 
 	"pault.ag/go/debian/dependency"
 
@@ -34,7 +35,24 @@ func parseVia(via, s string) (*dependency.Dependency, error) {
 	return dependency.Parse(s)
 }
 
+// self-check of the two reference components against each other: every rendering of a model AST must be accepted by the
+// independent recogniser with exactly that AST (a disagreement is a harness error, never a VIOLATION)
+var (
+	selfCheckFailures int64
+	selfCheckExample  atomic.Value
+)
+
+func selfCheck(in In) {
+	ast, reason := gen.Recognise(in.Text)
+	if reason != "" || ast.Canon() != in.Canon {
+		if atomic.AddInt64(&selfCheckFailures, 1) == 1 {
+			selfCheckExample.Store(fmt.Sprintf("%q: recogniser says %q / %s, renderer model says %s", in.Text, reason, ast.Canon(), in.Canon))
+		}
+	}
+}
+
 func checkDenotes(scen string, in In) *mc.Violation {
+	selfCheck(in)
 	var d *dependency.Dependency
 	var err error
 	if p, msg := mc.Guard(func() { d, err = parseVia(in.Via, in.Text) }); p {
@@ -254,6 +272,10 @@ func Run(r *mc.Run) {
 		}
 		return true
 	})
+	if n := atomic.LoadInt64(&selfCheckFailures); n > 0 {
+		r.HarnessError("renderer and recogniser disagree on %d renderings, e.g. %v", n, selfCheckExample.Load())
+	}
+	r.Extra["renderer_recogniser_self_check"] = "every rendering accepted by the recogniser with the model's AST"
 }
 
 // constructed returns statement-listed malformations built from a well-formed possibility (not reachable by one edit).
